@@ -5,7 +5,7 @@ import operator
 
 from packaging.specifiers import InvalidSpecifier as PkgInvalidSpecifier
 from packaging.specifiers import Specifier, SpecifierSet
-from packaging.version import Version
+from packaging.version import InvalidVersion, Version
 
 from dep_logic.specifiers.arbitrary import ArbitrarySpecifier
 from dep_logic.specifiers.base import (
@@ -110,7 +110,12 @@ def parse_version_specifier(spec: str) -> BaseSpecifier:
     except PkgInvalidSpecifier as e:
         raise InvalidSpecifier(str(e)) from e
     else:
-        return from_specifierset(pkg_spec)
+        try:
+            return from_specifierset(pkg_spec)
+        except InvalidVersion as e:
+            # packaging's specifier pattern lets a few non-ASCII look-alikes of
+            # version letters through that Version() rejects
+            raise InvalidSpecifier(str(e)) from e
 
 
 __all__ = [
